@@ -82,6 +82,9 @@ pub fn build(cfg: &Cfg) -> (Scenario, Vec<Box<dyn Peer>>) {
     sc.stop_after = tags;
     sc.linger_ms = 50;
     sc.horizon_ms = T_FRESH + if cfg.via_router { 40_000 } else { 120_000 };
+    if cfg.via_router {
+        sc.actions.push((When::At(sc.horizon_ms - 1_000), Action::GetState { node: f, tag: "endstate".into() }));
+    }
     if cfg.uplink_down_ms > 0 {
         sc.blackhole = vec![(fresh_addr(cfg.v6), T_FRESH, T_FRESH + cfg.uplink_down_ms)];
     }
@@ -98,6 +101,8 @@ pub struct Obs {
     pub results: Vec<Option<BTreeSet<SocketAddr>>>,
     pub boot_ms: Option<u64>,
     pub keys: Vec<String>,
+    /// good contacts the node reports shortly before the end of the run
+    pub good_at_end: Option<usize>,
 }
 
 pub fn observe(cfg: &Cfg, res: &RunResult) -> Obs {
@@ -107,7 +112,11 @@ pub fn observe(cfg: &Cfg, res: &RunResult) -> Obs {
             res.finished(&tag).map(|_| res.items(&tag).into_iter().map(|(_, a)| a).collect())
         })
         .collect();
-    Obs { results, boot_ms: res.resolved("bootF").map(|r| r.0), keys: res.choices.iter().map(|c| c.0.clone()).collect() }
+    let good_at_end = res.api.iter().rev().find_map(|e| match (&e.kind, e.tag == "endstate") {
+        (sim::ApiKind::State { good, .. }, true) => Some(*good),
+        _ => None,
+    });
+    Obs { results, boot_ms: res.resolved("bootF").map(|r| r.0), keys: res.choices.iter().map(|c| c.0.clone()).collect(), good_at_end }
 }
 
 pub fn run_cfg(cfg: &Cfg, fates: &[Option<Fate>], prefix: &[usize]) -> (RunResult, Obs, bool) {
@@ -136,7 +145,14 @@ pub fn compare(cfg: &Cfg, early: &Obs, late: &Obs) -> Vec<(String, String)> {
             // bootstrap itself never gets anywhere (nobody reachable within the ping timeout) neither
             // does, and nothing is asserted
             (None, Some(_)) => v.push(("early-search-never-ends".to_string(), format!("search #{k} issued {:?} ms after start never ended although the same search issued after bootstrap does", off))),
-            (None, None) => {}
+            (None, None) => {
+                // neither ends: fine while the node has nobody to ask (its bootstrap never got anywhere);
+                // but a node that reports good contacts has finished its initial bootstrap, so the
+                // search must have been carried out
+                if early.good_at_end.unwrap_or(0) > 0 {
+                    v.push(("search-never-carried-out-although-node-has-good-contacts".to_string(), format!("search #{k} issued {:?} ms after start (and the same search issued 20 s after start) never ended; the node reports {} good contacts", off, early.good_at_end.unwrap_or(0))));
+                }
+            }
             (Some(e), Some(l)) => {
                 if e != l {
                     let when = match (off, early.boot_ms) {
